@@ -14,7 +14,7 @@ from geodepy.convert import llh2xyz, xyz2llh
 from gpmc import cfg
 from gpmc import oracle_misc as om
 from gpmc.cfg import ELLS, ELL_AF, uniq, fill
-from gpmc.core import Sub
+from gpmc.core import Sub, HarnessError
 
 PROPERTY = 'C03'
 TOL_FWD = 1e-6
@@ -50,6 +50,11 @@ def gen_geo(tier, seed):
         for lat in (-89.5, -37.8, -0.3, 0.0, 0.3, 60.25, 90.0):
             for kind in cfg.INTYPES[1:] + cfg.NUMFORMS:
                 yield {'ell': ell, 'lat': lat, 'h': 39.6514, 'lons': [-179.5, -0.45, 0.0, 0.15, 144.97], 'kind': kind}
+        # numbers given as text (float() reads them): every way Python itself writes a float, incl. exponent notation for
+        # tiny / huge magnitudes ('2.5e-05'), a leading '+', surrounding blanks
+        for lat in (-89.5, -37.8, -7.5e-05, -1e-09, 0.0, 2.5e-05, 60.25, 90.0):
+            for kind in ('text', 'text%e', 'text+', 'text '):
+                yield {'ell': ell, 'lat': lat, 'h': 39.6514, 'lons': [-179.5, -7.5e-05, 0.0, 1e-09, 2.5e-05, 144.97], 'kind': kind}
 
 
 def back_check(rec, ell, xyz, one, site_prefix, co):
@@ -75,6 +80,29 @@ def back_check(rec, ell, xyz, one, site_prefix, co):
         rec.outcome('back-ok')
 
 
+TEXT_FORMS = {'text': repr, 'text%e': lambda v: '%.17e' % v, 'text+': lambda v: ('+' if v >= 0 else '') + repr(v), 'text ': lambda v: ' %r\n' % v}
+
+
+def ev_text(rec, case, one, lat, lon, h, ell, kind):
+    """latitude / longitude given as numeric text: the result is the result for the number the text denotes (read by float())"""
+    w = TEXT_FORMS[kind]
+    co = {'ell': ell, 'lat': lat, 'lon': lon, 'h': h, 'form': kind}
+    st0, r0 = rec.call(llh2xyz, lat, lon, h, cfg.ell_obj(ell))
+    for nm, a1, a2 in (('text,text', w(lat), w(lon)), ('text,float', w(lat), lon), ('float,text', lat, w(lon))):
+        if float(a1) != lat or float(a2) != lon:
+            raise HarnessError('text form %r does not denote the lattice value' % ((a1, a2),))
+        st, r = rec.call(llh2xyz, a1, a2, h, cfg.ell_obj(ell))
+        rec.nontriv((ell, lat, lon, h, kind, nm))
+        rec.state(('xyz-text', ell, nm, repr(r)))
+        if st != st0 or (st == 'ok' and tuple(r) != tuple(r0)):
+            rec.fail('latitude / longitude given as numeric text (%s: %r, %r) give a different result from the numbers they denote' % (nm, a1, a2),
+                     site='convert:llh2xyz:text-form', observed=r if st != 'ok' else list(r), expected=r0 if st0 != 'ok' else list(r0),
+                     case=one, coords=dict(co, mix=nm))
+            rec.outcome('text-bad')
+        else:
+            rec.outcome('text-ok')
+
+
 def ev_geo(case, rec):
     ell = case['ell']
     a, invf = ELL_AF[ell]
@@ -83,6 +111,9 @@ def ev_geo(case, rec):
         one = dict(case, lons=[lon])
         if kind == 'float':
             la, lo = lat, lon
+        elif kind.startswith('text'):
+            ev_text(rec, case, one, lat, lon, h, ell, kind)
+            continue
         else:
             try:
                 la, lo = cfg.as_type(lat, kind), cfg.as_type(lon, kind)
@@ -139,7 +170,7 @@ def ev_geo(case, rec):
         # the same ellipsoid defined with its numbers in other exact forms (int / numpy-integer axis, Decimal / Fraction flattening)
         lon = case['lons'][1]
         stb, base = rec.call(llh2xyz, lat, lon, h, cfg.ell_obj(ell))
-        for nm, E in cfg.ell_field_forms(ell):
+        for nm, E in cfg.ell_field_forms(ell) + [('object:' + n, o) for n, o, strict in cfg.ell_object_forms(ell)]:
             if isinstance(E, Exception):
                 rec.fail('an ellipsoid cannot be defined with %s' % nm, site='constants:Ellipsoid:field-form', observed=E, case=dict(case, lons=[lon]), coords={'form': nm})
                 continue
